@@ -145,6 +145,8 @@ static void stage_locals(Run &R) {
     if (!enumerate(R, {"a", ".", "\"", "\\", " ", "#", "~", "{", "\xD0\x96", "\x01"}, R.a.thorough ? 6 : 5, &t2, [&](const Bytes &b) { return check_local(R, b); })) return;
     if (!enumerate(R, {"a", "\"", " ", "\xD0\x96", "\xE2\x82\xAC", "\xFF", "\\", "\n"}, R.a.thorough ? 7 : 6, &t3, [&](const Bytes &b) { return check_local(R, b); })) return;
     for (int x = 1; x < 256; x++) for (const Bytes &l : {Bytes(1, (char) x), "a" + Bytes(1, (char) x) + "b", "\"" + Bytes(1, (char) x) + "\"", "\"\\" + Bytes(1, (char) x) + "\"", "a." + Bytes(1, (char) x)}) { auto f = check_local(R, l); if (f && !R.fail(*f)) return; }
+    for (size_t n = 200; n <= (R.a.thorough ? 2100u : 600u); n += (n % 256 >= 250 || n % 256 <= 6) ? 1 : 17)
+        for (const char *u : {"a", "\xD0\x96"}) for (const Bytes &b : gen::long_local_shapes(n, u)) { if ((int) (hashs(b) % R.a.nworkers) != R.a.worker) continue; auto f = check_local(R, b); if (f && !R.fail(*f)) return; }
     R.space("C17 local parts: all strings <= " + std::to_string(R.a.thorough ? 6 : 5) + " over the C02 alphabet (13) and over {a . \" \\ SP # ~ { U+0416 0x01}, <= " + std::to_string(R.a.thorough ? 7 : 6) + " over {a \" SP U+0416 U+20AC 0xFF \\ LF}, every byte in 5 positions; x 9 builds x 4 scanners", t1 + t2 + t3 + 255 * 5);
 }
 static void stage_domains(Run &R) {
